@@ -16,7 +16,7 @@ def Params.restrict (P : Params) (N G : Nat) (u₁ u₂ : St) : Params :=
 variable {P : Params}
 
 theorem Params.Ok.restrict (ok : P.Ok) (N G : Nat) (u₁ u₂ : St) : (P.restrict N G u₁ u₂).Ok :=
-  ⟨ok.hρ, ok.hν, ok.hγ, ok.hT, ok.hfix⟩
+  ⟨ok.hρ, ok.hν, ok.hγ, ok.hT, ok.hfix, ok.hgx⟩
 
 theorem mapGrpAt_restrict (N G : Nat) (u₁ u₂ : St) (j : Nat) (g : Grp) :
     mapGrpAt (P.restrict N G u₁ u₂) j g = mapGrpAt P j g := by
@@ -58,6 +58,7 @@ theorem ASim.restrict {u₁ u₂ : St} (h : ASim P u₁ u₂) (N G : Nat) (hN : 
   · intro j _; rfl
   · intro i _; rfl
   · intro j _; rfl
+  · exact h.pl
 
 /-- gluing: the simulation before, and the restricted simulation (with its frame) after, give the
 simulation after -/
@@ -126,13 +127,38 @@ theorem ASim.glue (ok : P.Ok) {u₁ u₂ v₁ v₂ : St} (h : ASim P u₁ u₂) 
   · intro j' hj'
     rw [h'.fr2g j' (fun j hd => hj' j hd.1)]
     exact h.fr2g j' hj'
+  · exact h'.pl
 
 variable {X : SParams}
+
+mutual
+/-- no `loose_exit` row (also inside inserted templates) -/
+def Event.noLoose : Event → Bool
+  | .row r => decide (r.type ≠ "loose_exit".toList)
+  | .openGroup _ _ => true
+  | .closeGroup _ => true
+  | .insert _ body => noLooseL body
+def noLooseL : List Event → Bool
+  | [] => true
+  | e :: es => e.noLoose && noLooseL es
+end
+
+theorem noLoose_row {r : Row} (h : Event.noLoose (.row r) = true) : r.type ≠ "loose_exit".toList := by
+  unfold Event.noLoose at h; exact of_decide_eq_true h
+
+theorem noLoose_insert {r : Row} {body : List Event} (h : Event.noLoose (.insert r body) = true) :
+    noLooseL body = true := by
+  unfold Event.noLoose at h; exact h
+
+theorem noLooseL_cons {e : Event} {es : List Event} (h : noLooseL (e :: es) = true) :
+    e.noLoose = true ∧ noLooseL es = true := by
+  unfold noLooseL at h
+  exact Bool.and_eq_true_iff.mp h
 
 /-- what the nested parser of an `insert_as_block` row is known to do (induction hypothesis) -/
 def BodyRel (body : List Event) : Prop :=
   ∀ (P : Params) (X : SParams) (s₁ s₂ : St), P.Ok → Sim P X s₁ s₂ → X.F = [] → X.nmAll = true →
-    CL P s₁ → SB s₁ → RV s₁ →
+    CL P s₁ → SB s₁ → RV s₁ → (P.op = true → noLooseL body = true) →
     rwp (steps body) (steps body) s₁ s₂ (fun _ t₁ _ t₂ => Sim P X t₁ t₂ ∧ Eff P s₁ t₁)
 
 /-- the state in which the nested parser starts -/
@@ -150,7 +176,8 @@ theorem wp_insertEnter' (s : St) (Q : St × Nat → St → Prop) :
 /-- `_parse_insert_as_block_row`: a nested parser on the new part of the arenas, then the row's
 edges into the entry node of the block it built -/
 theorem insert_rel (ok : P.Ok) {s₁ s₂ : St} (h : Sim P X s₁ s₂) (r : Row) (body : List Event)
-    (hbody : BodyRel body) (hpre : EdgesPre P X s₁ (dropTrivial r.edges)) (hsb : SB s₁) :
+    (hbody : BodyRel body) (hpre : EdgesPre P X s₁ (dropTrivial r.edges)) (hsb : SB s₁)
+    (hnl : P.op = true → noLooseL body = true) :
     rwp (step (.insert r body)) (step (.insert r body)) s₁ s₂ (fun _ t₁ _ t₂ =>
       Sim P X t₁ t₂ ∧ t₁.stack = s₁.stack ∧ MR P t₁ ∧ Eff P s₁ t₁) := by
   unfold step
@@ -226,7 +253,7 @@ theorem insert_rel (ok : P.Ok) {s₁ s₂ : St} (h : Sim P X s₁ s₂) (r : Row
     unfold enterSt
     intro p hp; simp at hp
   rw [rwp_bind]
-  refine rwp_mono (hbody _ _ u₁ u₂ (ok.restrict _ _ _ _) ⟨a', ss'⟩ rfl rfl cl' sb' rv') ?_
+  refine rwp_mono (hbody _ _ u₁ u₂ (ok.restrict _ _ _ _) ⟨a', ss'⟩ rfl rfl cl' sb' rv' hnl) ?_
   intro _ v₁ _ v₂ ⟨hv, hefn⟩
   have hvsz : s₁.groups.size + 1 ≤ v₁.groups.size := by
     have := hefn.hk.2.2
@@ -294,7 +321,7 @@ theorem insert_rel (ok : P.Ok) {s₁ s₂ : St} (h : Sim P X s₁ s₂) (r : Row
   subst n'; subst t₁; subst t₂
   rw [rwp_bind]
   have hpre' : EdgesPre P X w₁ (dropTrivial r.edges) := hpre.mono hef.mr
-  refine rwp_mono (edges_rel ok hw (.node n.uid) (dropTrivial r.edges) hpre'.1 hpre'.2) ?_
+  refine rwp_mono (edges_rel ok hw (.node n.uid) (dropTrivial r.edges) hpre'.1 hpre'.2 (fun _ e' => by cases e')) ?_
   intro _ x₁ _ x₂ ⟨hx, e1, e2, hb⟩
   have hxlt : s₁.groups.size < x₁.groups.size := by
     have h1 := hb.2.2.1
